@@ -261,6 +261,20 @@ def run(repo: Repo, chk: Check) -> None:
     strs = [json.dumps(s) for s in ('', 'abc', 'a"b', 'a\\b', 'line\nbreak', 'tab\t', 'unié')]
     chk.ob('R-PAIR', f'{PARSE}.SimpleMichelsonLexer.t_STR', all(re.fullmatch(t_str, s) for s in strs), 'STR token accepts every json.dumps output', lex.loc,
            {'pattern': t_str}, what='a string literal printed with json.dumps is not a single STR token')
+    # token boundary: in the printed text a string literal ends at ITS closing quote, whatever follows (another string, a backslash before the quote)
+    tails = ['', 'abc', 'a"b', 'ends with backslash\\', 'C:\\dir\\', '\\', 'x\\"', 'line\nbreak']
+    bad_b = []
+    for s1 in tails:
+        for s2 in ('b', 'q"r', 'z\\'):
+            lit1 = json.dumps(s1)
+            text = lit1 + ' ; ' + json.dumps(s2) + ' }'
+            m = re.match(t_str, text)
+            if m is None or m.group(0) != lit1:
+                bad_b.append((text, m.group(0) if m else None))
+    chk.ob('R-PAIR', f'{PARSE}.SimpleMichelsonLexer.t_STR', not bad_b, 'STR token ends at the closing quote of the literal (escaped backslashes and quotes)', lex.loc,
+           {'pattern': t_str, 'mis-tokenised': bad_b[:2]},
+           what=f'the STR token of the lexer does not stop at the end of a printed string literal: in {bad_b[0][0] if bad_b else ""!r} it matches {bad_b[0][1] if bad_b else ""!r} '
+                '(a string ending in a backslash swallows the following tokens)')
     # writer / reader pairs, decided by interpreting both sides on an opaque literal payload
     par = repo.cls(f'{PARSE}.MichelsonParser')
 
